@@ -362,7 +362,8 @@ def _gen_func(spec, h, fname, shared=False):
     if "return" in types:
         glb["__T__"]["return"] = types["return"]
         ret = " -> __T__['return']"
-    argd = "{" + ", ".join(f"{p!r}: {p}" for p in params) + "}"
+    alias = spec.get("arg_alias") or {}  # definition parameter name -> logical name recorded in the call log
+    argd = "{" + ", ".join(f"{alias.get(p, p)!r}: {p}" for p in params) + "}"
     nid = spec["id"]
     nid_expr = repr(nid)
     if shared:
